@@ -68,7 +68,7 @@ def check(ctx) -> Result:
                     f"{kind} mapping per-mode function(s) are {sorted((k[0], k[2]) for k in seen)}", construct=str(sorted((k[0], str(k[2])) for k in seen)))
             # result goes through recombination
             rets = [r for r in walk_no_nested(f.node) if isinstance(r, ast.Return)]
-            res.add(bool(rets) and src(rets[-1].value) == "self._recombine_mapped_result(mapped_result)", "M4-recombine", f"{ci.name}.apply_{kind}_mapping", f.site(), f.qualname, "mapped weights are recombined into a new result", "mapped result is not returned through the recombination", construct=src(rets[-1]) if rets else "")
+            res.frozen(bool(rets) and src(rets[-1].value) == "self._recombine_mapped_result(mapped_result)", "M4-recombine", f"{ci.name}.apply_{kind}_mapping", f.site(), f.qualname, "mapped weights are recombined into a new result", "mapped result is not returned through the recombination", construct=src(rets[-1]) if rets else "")
     res.floor("G stores in mappings", n, 6)
     # amplitude refusal dominates all work
     for kind in ("threshold", "parity"):
@@ -104,7 +104,7 @@ def check(ctx) -> Result:
     # __getitem__: pair indexing = nested indexing
     gi = SR.methods["__getitem__"]
     t = src(gi.node)
-    res.add("sub_r = self[istate]" in t and "return sub_r[ostate]" in t and "istate = item[0]" in t and "super().__getitem__(item)" in t, "M4-pair-equals-nested", "SimulationResult.__getitem__", gi.site(), gi.qualname, "result[in, out] is result[in][out] with in = item[0], out = item[1]",
+    res.frozen("sub_r = self[istate]" in t and "return sub_r[ostate]" in t and "istate = item[0]" in t and "super().__getitem__(item)" in t, "M4-pair-equals-nested", "SimulationResult.__getitem__", gi.site(), gi.qualname, "result[in, out] is result[in][out] with in = item[0], out = item[1]",
             "pair indexing no longer goes through the nested lookup in (input, output) order", construct="__getitem__")
     # recombination
     rc = SR.methods["_recombine_mapped_result"]
@@ -130,8 +130,8 @@ def check(ctx) -> Result:
     # sampling result
     pi = PR.methods["__init__"]
     t = src(pi.node)
-    res.add("super().__init__(results)" in t and "self.__outputs = list(results.keys())" in t, "M4-sampling-result-unchanged", "SamplingResult.__init__", pi.site(), pi.qualname, "counts are handed to dict unchanged; outputs are its keys", "SamplingResult no longer stores exactly the counts it was built from", construct="__init__")
+    res.frozen("super().__init__(results)" in t and "self.__outputs = list(results.keys())" in t, "M4-sampling-result-unchanged", "SamplingResult.__init__", pi.site(), pi.qualname, "counts are handed to dict unchanged; outputs are its keys", "SamplingResult no longer stores exactly the counts it was built from", construct="__init__")
     pr = PR.methods["_recombine_mapped_result"]
     r = [x for x in walk_no_nested(pr.node) if isinstance(x, ast.Return)]
-    res.add(len(r) == 1 and src(r[0].value) == "SamplingResult(mapped_result, self.input)", "M4-recombine", "SamplingResult._recombine_mapped_result", pr.site(), pr.qualname, "new result from the mapped counts and the same input", "recombination changed", construct=src(r[0]) if r else "")
+    res.frozen(len(r) == 1 and src(r[0].value) == "SamplingResult(mapped_result, self.input)", "M4-recombine", "SamplingResult._recombine_mapped_result", pr.site(), pr.qualname, "new result from the mapped counts and the same input", "recombination changed", construct=src(r[0]) if r else "")
     return res
